@@ -24,7 +24,7 @@ impl core::fmt::Display for ZonedDateTime {
                     DisplayCalendar::Auto,
                     ToStringRoundingOptions::default(),
                 )
-                .expect("A valid ZonedDateTime string with default options."),
+                .map_err(|_| core::fmt::Error)?,
         )
     }
 }
